@@ -1,6 +1,12 @@
 import re
 from re import Pattern
 
+from flowmark.linewrapping.tag_handling import TEMPLATE_TAG_PATTERN
+
+# Delimits the stand-in for a template tag while the prose around it is converted
+# (a private-use character that is neither a word character nor punctuation).
+_TAG_MARK = "\ue000"
+
 ELLIPSIS_PATTERN: Pattern[str] = re.compile(
     r"(^|[\w\"\'“‘”’])(\s*)(\.\.\.)([.,:;?!)\-—\"\'”’]?)(\s*)",
     re.MULTILINE,
@@ -8,6 +14,31 @@ ELLIPSIS_PATTERN: Pattern[str] = re.compile(
 
 
 def ellipses(text: str) -> str:
+    r"""
+    Replace three consecutive dots with an ellipsis character, see `_ellipses_in_prose()`.
+
+    Template tags (Jinja/Markdoc `{% %}`, `{# #}`, `{{ }}` and HTML comments) are never
+    modified, as for smart quotes: they are set aside first and put back afterwards.
+    """
+    if _TAG_MARK in text:
+        return _ellipses_in_prose(text)
+
+    tags: list[str] = []
+
+    def set_aside(match: re.Match[str]) -> str:
+        tags.append(match.group(0))
+        return f"{_TAG_MARK}{len(tags) - 1}{_TAG_MARK}"
+
+    masked = TEMPLATE_TAG_PATTERN.sub(set_aside, text)
+    if not tags:
+        return _ellipses_in_prose(text)
+    converted = _ellipses_in_prose(masked)
+    return re.sub(
+        f"{_TAG_MARK}([0-9]+){_TAG_MARK}", lambda match: tags[int(match.group(1))], converted
+    )
+
+
+def _ellipses_in_prose(text: str) -> str:
     r"""
     Replace three consecutive dots with a proper ellipsis character (…).
 
